@@ -5,6 +5,7 @@ package main
 import (
 	"bytes"
 	"fmt"
+	"sort"
 	"strings"
 	"sync/atomic"
 	"time"
@@ -91,7 +92,7 @@ func checkSingle(col *collector, phase, idx int64, o oname) {
 	// representation independence / determinism of Hash and Bytes
 	ha, hb := a.Hash(), b.Hash()
 	if ha != hb || ha != a.Hash() {
-		col.note("C14.hash", "equal names hash differently (nil vs empty representation / repeated call)", w, func() (string, any) {
+		col.note("C14.hash", "equal names hash differently (nil vs empty representation / repeated call)"+countClass(o), w, func() (string, any) {
 			return fmt.Sprintf("name %s: Hash()=%#x, Hash() of an equal copy=%#x, repeated=%#x", o.Short(), ha, hb, a.Hash()), rp()
 		})
 	}
@@ -109,12 +110,12 @@ func checkSingle(col *collector, phase, idx int64, o oname) {
 		})
 		return
 	}
-	for k := 0; k <= len(o); k++ {
+	for _, k := range prefixIdx(len(o)) {
 		sub := a[:k].Hash()   // slice of the same name
 		ind := real(o[:k], 1) // independently built k-component prefix
 		if ph[k] != sub || ph[k] != ind.Hash() {
 			kk := k
-			col.note("C14.hash", "PrefixHash()[i] != Hash() of the i-component prefix", w, func() (string, any) {
+			col.note("C14.hash", "PrefixHash()[i] != Hash() of the i-component prefix"+countClass(o), w, func() (string, any) {
 				return fmt.Sprintf("name %s: PrefixHash()[%d]=%#x, n[:%d].Hash()=%#x, independently built prefix Hash()=%#x",
 					o.Short(), kk, ph[kk], kk, sub, ind.Hash()), rp()
 			})
@@ -276,12 +277,12 @@ func checkPair(col *collector, u *nameUniverse, i, j int, eqOnly bool, lt, eqc, 
 		*coll++ // evidence only
 	}
 	if op1 && len(u.phB[j]) > len(oa) && u.phB[j][len(oa)] != u.hashA[i] {
-		col.note("C14.hash", "PrefixHash()[i] != Hash() of the i-component prefix", w, func() (string, any) {
+		col.note("C14.hash", "PrefixHash()[i] != Hash() of the i-component prefix"+countClass(ob), w, func() (string, any) {
 			return fmt.Sprintf("%s: b.PrefixHash()[%d]=%#x but a.Hash()=%#x and a is the %d-component prefix of b", desc(), len(oa), u.phB[j][len(oa)], u.hashA[i], len(oa)), rp()
 		})
 	}
 	if op2 && len(u.phB[i]) > len(ob) && u.phB[i][len(ob)] != u.hashB[j] {
-		col.note("C14.hash", "PrefixHash()[i] != Hash() of the i-component prefix", w, func() (string, any) {
+		col.note("C14.hash", "PrefixHash()[i] != Hash() of the i-component prefix"+countClass(oa), w, func() (string, any) {
 			return fmt.Sprintf("%s: a.PrefixHash()[%d]=%#x but b.Hash()=%#x and b is the %d-component prefix of a", desc(), len(ob), u.phB[i][len(ob)], u.hashB[j], len(ob)), rp()
 		})
 	}
@@ -437,6 +438,51 @@ func checkWire(col *collector, w int64, o oname) {
 func lenClass(o oname) string {
 	if maxValLen(o) >= 253 {
 		return " (a component value of >= 253 bytes)"
+	}
+	return ""
+}
+
+// sizeThresholdCounts: component counts k at which some size of a k-component name crosses a
+// power-of-two / TLV-width threshold, for per-component sizes u: 2,3,4,… bytes of TLV, 8,9,10,…
+// bytes fed to the hash (8-byte type + value), 16/24/32 bytes of in-memory component header.
+// Every k = floor(t/u) + {-1,0,1,2} for t in {128,253,256,512,1024,4096,65535,65536}.
+func sizeThresholdCounts(maxK int) []int {
+	set := map[int]bool{}
+	for _, t := range []int{128, 253, 256, 512, 1024, 4096, 65535, 65536} {
+		for _, u := range []int{2, 3, 4, 5, 6, 8, 9, 10, 11, 12, 16, 24, 32} {
+			for d := -1; d <= 2; d++ {
+				if k := t/u + d; k >= 0 && k <= maxK {
+					set[k] = true
+				}
+			}
+		}
+	}
+	r := make([]int, 0, len(set))
+	for k := range set {
+		r = append(r, k)
+	}
+	sort.Ints(r)
+	return r
+}
+
+// prefixIdx: which prefixes of an n-component name are compared with PrefixHash: all of them up
+// to 160 components, the threshold counts (and the ends) beyond.
+func prefixIdx(n int) []int {
+	if n <= 160 {
+		r := make([]int, n+1)
+		for i := range r {
+			r[i] = i
+		}
+		return r
+	}
+	r := append(sizeThresholdCounts(n), n-1, n)
+	sort.Ints(r)
+	return r
+}
+
+func countClass(o oname) string {
+	if len(o) >= 16 {
+		return " (name of >= 16 components)"
 	}
 	return ""
 }
